@@ -52,4 +52,12 @@ theorem cutoff (R n : Nat) (w : World) (c : List Nat) (f mx ch : Nat) (seen : Li
   simp (config := { zeta := true, zetaHave := true }) only [isDirty, Option.getD_none, hs, hf, hc, this, hck, if_true, if_false,
     Option.isSome_none, Bool.false_eq_true]
 
+/-- Recording an override forgets the checksum: it described the generated content, not the hand-made one, so a
+later dirtiness check of the file's dependents falls back to the stamp comparison (no `need` verdict for it). -/
+theorem override_forgets_checksum (w : World) (f : Nat) (r : Rec) (R : Nat) : (setOverride w f r R).csum = none := rfl
+
+example : (setOverride (initWorld fun _ => []) 1 { csum := some [4], isGenerated := true, stamp := some .missing } 1).csum
+    = none ∧ (setOverride (initWorld fun _ => []) 1 { csum := some [4], isGenerated := true } 1).isOverride = true := by
+  decide
+
 end C03
